@@ -45,36 +45,100 @@ Proof.
 Qed.
 
 (* ------------------------------------------------------------------ stores *)
+(* the history is consistent with the live handles: every created handle is below s_next and is
+   either live or retired; children and merged streams are younger than their sources; every live
+   handle was created *)
+Definition created (hist : list hev) (h : handle) : Prop :=
+  In (HFresh h) hist \/ (exists p cs, In (HCopy p cs) hist /\ In h cs) \/ (exists hs, In (HMerge hs h) hist).
+Definition retired (hist : list hev) (h : handle) : Prop :=
+  In (HConsume h) hist \/ (exists cs, In (HCopy h cs) hist) \/ (exists hs h', In (HMerge hs h') hist /\ In h hs).
+
+Definition hist_ok (s : store) : Prop :=
+  (forall h, created (s_hist s) h -> h < s_next s /\ (In h (s_open s) \/ retired (s_hist s) h)) /\
+  (forall p cs, In (HCopy p cs) (s_hist s) -> forall c, In c cs -> p < c) /\
+  (forall hs h', In (HMerge hs h') (s_hist s) -> forall h, In h hs -> h < h') /\
+  (forall h, In h (s_open s) -> created (s_hist s) h).
+
 Definition store_ok (s : store) : Prop :=
-  NoDup (s_open s) /\ forall h, In h (s_open s) -> h < s_next s.
+  NoDup (s_open s) /\ (forall h, In h (s_open s) -> h < s_next s) /\ hist_ok s.
 
 Definition copy_len (n : Z) : nat := if (n <? 2)%Z then 1%nat else Z.to_nat n.
+
+Lemma remove_one_in_other_h : forall k y l, In y l -> y <> k -> In y (remove_one k l).
+Proof.
+  induction l as [|x l IH]; simpl; intros Hy Hne; [contradiction|].
+  destruct (N.eqb_spec k x) as [->|Hkx].
+  - destruct Hy as [->|Hy]; [congruence|exact Hy].
+  - destruct Hy as [->|Hy]; [now left|right; auto].
+Qed.
+
+Lemma created_cons : forall e hist h, created hist h -> created (e :: hist) h.
+Proof.
+  intros e hist h [H|[(p & cs & H1 & H2)|(hs & H)]].
+  - left. now right.
+  - right. left. exists p, cs. split; [now right|exact H2].
+  - right. right. exists hs. now right.
+Qed.
+
+Lemma retired_cons : forall e hist h, retired hist h -> retired (e :: hist) h.
+Proof.
+  intros e hist h [H|[(cs & H)|(hs & h' & H1 & H2)]].
+  - left. now right.
+  - right. left. exists cs. now right.
+  - right. right. exists hs, h'. split; [now right|exact H2].
+Qed.
 
 Lemma copy_item_spec : forall h n s hs s',
   store_ok s -> In h (s_open s) -> copy_item h n s = (hs, s') ->
   store_ok s' /\ Permutation (s_open s') (remove_one h (s_open s) ++ hs) /\
   List.length hs = copy_len n /\ s_next s <= s_next s'.
 Proof.
-  intros h n s hs s' [Hnd Hlt] Hin Hc. unfold copy_item, copy_len in *.
+  intros h n s hs s' (Hnd & Hlt & Hc & Hcp & Hmg & Hop) Hin Hcopy. unfold copy_item, copy_len in *.
   destruct (n <? 2)%Z eqn:En.
-  - inversion Hc; subst hs s'. repeat split; auto; try lia.
+  - inversion Hcopy; subst hs s'.
+    split; [exact (conj Hnd (conj Hlt (conj Hc (conj Hcp (conj Hmg Hop)))))|]. split; [|split; [reflexivity|lia]].
     rewrite (remove_one_in_perm h (s_open s) Hin) at 1.
     change (h :: remove_one h (s_open s)) with ([h] ++ remove_one h (s_open s)). apply Permutation_app_comm.
-  - inversion Hc; subst hs s'; clear Hc. simpl. apply Z.ltb_ge in En.
+  - inversion Hcopy; subst hs s'; clear Hcopy. simpl. apply Z.ltb_ge in En.
     assert (Hrem : Permutation (s_open s) (h :: remove_one h (s_open s))) by now apply remove_one_in_perm.
     assert (Hsub : forall x, In x (remove_one h (s_open s)) -> In x (s_open s)).
     { intros x Hx. eapply Permutation_in; [symmetry; exact Hrem|right; exact Hx]. }
-    repeat split.
-    + apply NoDup_app_intro.
+    set (cs := fresh_handles (s_next s) (Z.to_nat n)) in *.
+    split; [split; [|split]|split; [reflexivity|split; [apply fresh_handles_length|lia]]].
+    + simpl. apply NoDup_app_intro.
       * eapply Permutation_NoDup in Hnd; [|exact Hrem]. now inversion Hnd.
       * apply fresh_handles_nodup.
       * intros x Hx Hy. apply Hsub in Hx. apply Hlt in Hx. apply fresh_handles_in in Hy. lia.
     + intros x Hx. simpl in *. apply in_app_or in Hx as [Hx|Hx].
       * apply Hsub in Hx. apply Hlt in Hx. lia.
       * apply fresh_handles_in in Hx. lia.
-    + reflexivity.
-    + apply fresh_handles_length.
-    + lia.
+    + unfold hist_ok. simpl. split; [|split; [|split]].
+      * intros x [Hx|[(p & cs' & [E|Hp] & Hx)|(ms & [E|Hm])]]; try discriminate.
+        -- destruct Hx as [E|Hx]; [discriminate|].
+           assert (Hcr : created (s_hist s) x) by now left.
+           destruct (Hc x Hcr) as [Hl [Ho|Hr]]; split; try lia.
+           ++ destruct (N.eq_dec x h) as [->|Hne]; [right; right; left; exists cs; now left|].
+              left. apply in_or_app. left. now apply remove_one_in_other_h.
+           ++ right. now apply retired_cons.
+        -- inversion E; subst p cs'. apply fresh_handles_in in Hx. split; [lia|]. left. apply in_or_app. right.
+           unfold cs. unfold fresh_handles. apply in_map_iff. exists (N.to_nat (x - s_next s)). split; [lia|]. apply in_seq. lia.
+        -- assert (Hcr : created (s_hist s) x) by (right; left; eauto).
+           destruct (Hc x Hcr) as [Hl [Ho|Hr]]; split; try lia.
+           ++ destruct (N.eq_dec x h) as [->|Hne]; [right; right; left; exists cs; now left|].
+              left. apply in_or_app. left. now apply remove_one_in_other_h.
+           ++ right. now apply retired_cons.
+        -- assert (Hcr : created (s_hist s) x) by (right; right; eauto).
+           destruct (Hc x Hcr) as [Hl [Ho|Hr]]; split; try lia.
+           ++ destruct (N.eq_dec x h) as [->|Hne]; [right; right; left; exists cs; now left|].
+              left. apply in_or_app. left. now apply remove_one_in_other_h.
+           ++ right. now apply retired_cons.
+      * intros p cs' [E|Hp] c Hcin.
+        -- inversion E; subst p cs'. apply fresh_handles_in in Hcin. apply Hlt in Hin. lia.
+        -- eapply Hcp; eauto.
+      * intros ms h' [E|Hm] x Hx; [discriminate|]. eapply Hmg; eauto.
+      * intros x Hx. apply in_app_or in Hx as [Hx|Hx].
+        -- apply created_cons. apply Hop. now apply Hsub.
+        -- right. left. exists h, cs. split; [now left|exact Hx].
 Qed.
 
 (* ------------------------------------------------------------------ uniqueKeys and the map writes *)
@@ -244,7 +308,7 @@ Proof.
     assert (Hpre : List.length pre = (List.length vs' - 1)%nat) by (subst pre; rewrite firstn_length; lia).
     assert (Hfull : List.length (pre ++ nvs) = List.length next) by (rewrite app_length; lia).
     simpl. rewrite assign_all_nodup; [|exact Hnd|intros k _ []|lia]. simpl.
-    eexists. split; [reflexivity|]. simpl. repeat split; try apply Hok2.
+    eexists. split; [reflexivity|]. simpl. split; [exact Hok2|]. split; [|split].
     + rewrite combine_snd_firstn by lia. rewrite <- Hfull, firstn_all, skipn_all, app_nil_r.
       apply perm_cnt. intros x. rewrite HP2, !cnt_app, HP1', !cnt_app. lia.
     + apply combine_fst. lia.
@@ -252,7 +316,7 @@ Proof.
   - (* enough copies: the spare ones are closed *)
     apply Z.ltb_ge in Ec. simpl.
     rewrite assign_all_nodup; [|exact Hnd|intros k _ []|lia]. simpl.
-    eexists. split; [reflexivity|]. simpl. repeat split; try apply Hok1.
+    eexists. split; [reflexivity|]. simpl. split; [exact Hok1|]. split; [|split].
     + rewrite combine_snd_firstn by lia.
       apply perm_cnt. intros x. rewrite HP1, Hsplit, !cnt_app.
       rewrite <- (firstn_skipn (List.length next) vs') at 1. rewrite cnt_app. lia.
@@ -281,9 +345,15 @@ Qed.
 (* ------------------------------------------------------------------ core statements *)
 Lemma init_store_ok : forall h, store_ok (init_store h).
 Proof.
-  intros h. split; simpl.
+  intros h. split; [|split]; simpl.
   - constructor; [intros []|constructor].
   - intros x [<-|[]]. lia.
+  - unfold hist_ok. simpl. split; [|split; [|split]].
+    + intros x [[E|[]]|[(p & cs & [E|[]] & _)|(hs & [E|[]])]]; try discriminate.
+      inversion E; subst x. split; [lia|]. left. now left.
+    + intros p cs [E|[]]. discriminate.
+    + intros hs h' [E|[]]. discriminate.
+    + intros x [<-|[]]. left. now left.
 Qed.
 
 (* handle level: after resolveCompletedTasks + updateValues every live handle derived from the
@@ -382,4 +452,33 @@ Proof.
     + rewrite HP. apply Permutation_app_head. now rewrite <- app_removelast_last.
     + pose proof (app_removelast_last h Hne) as Es. apply (f_equal (@List.length handle)) in Es.
       rewrite app_length in Es. simpl in Es. lia.
+Qed.
+
+(* ---- every stream is released: closed or drained by a consumer, or — a stream that was copied —
+   all its copies are released, or — a stream that was merged — the merged stream is released
+   (closing the last copy closes the source, schema/stream.go parentStreamReader.close; closing a
+   merged stream closes its sources, multiStreamReader.close; the same for reading them to EOF) *)
+Inductive released (hist : list hev) : handle -> Prop :=
+| rel_consume : forall h, In (HConsume h) hist -> released hist h
+| rel_copy : forall h cs, In (HCopy h cs) hist -> (forall c, In c cs -> released hist c) -> released hist h
+| rel_merge : forall hs h h', In (HMerge hs h') hist -> In h hs -> released hist h' -> released hist h.
+
+Lemma all_released : forall s, store_ok s -> s_open s = [] ->
+  forall h, created (s_hist s) h -> released (s_hist s) h.
+Proof.
+  intros s (_ & _ & Hc & Hcp & Hmg & _) Hopen.
+  assert (Hind : forall n h, (N.to_nat (s_next s - h) <= n)%nat -> created (s_hist s) h -> released (s_hist s) h).
+  { induction n as [|n IH]; intros h Hn Hcr.
+    - destruct (Hc h Hcr) as [Hl _]. lia.
+    - destruct (Hc h Hcr) as [Hl [Ho|[Hr|[(cs & Hr)|(hs & h' & Hr & Hin)]]]].
+      + rewrite Hopen in Ho. destruct Ho.
+      + now apply rel_consume.
+      + apply (rel_copy _ h cs Hr). intros c Hcin.
+        pose proof (Hcp h cs Hr c Hcin) as Hlt.
+        assert (Hcc : created (s_hist s) c) by (right; left; eauto).
+        destruct (Hc c Hcc) as [Hlc _]. apply IH; [lia|exact Hcc].
+      + pose proof (Hmg hs h' Hr h Hin) as Hlt.
+        assert (Hcc : created (s_hist s) h') by (right; right; eauto).
+        destruct (Hc h' Hcc) as [Hlc _]. apply (rel_merge _ hs h h' Hr Hin). apply IH; [lia|exact Hcc]. }
+  intros h Hcr. eapply Hind; [apply Nat.le_refl|exact Hcr].
 Qed.
